@@ -41,6 +41,8 @@ type c15Step struct {
 type c15Scenario struct {
 	Name   string
 	Weight int
+	// WeightUnset: the description gives the scenario no weight (it counts as 1)
+	WeightUnset bool
 	MWT    time.Duration
 	Lines  []string  // the request list as written
 	Steps  []c15Step // expanded reference
@@ -91,7 +93,7 @@ func c15GenScenario(w *simrt.Stream, i int) c15Scenario {
 	return sc
 }
 
-func c15YAML(scs []c15Scenario, rows int, plainPost bool, funcs bool, listTempl string) (string, string) {
+func c15YAML(scs []c15Scenario, rows int, plainPost bool, funcs bool, listTempl string, twin bool) (string, string) {
 	var csv strings.Builder
 	csv.WriteString("id,name\n")
 	for r := 0; r < rows; r++ {
@@ -99,6 +101,9 @@ func c15YAML(scs []c15Scenario, rows int, plainPost bool, funcs bool, listTempl 
 	}
 	var b strings.Builder
 	b.WriteString("variable_sources:\n  - name: users\n    type: file/csv\n    file: /ammo/users.csv\n    fields: [id, name]\n    ignore_first_line: true\n    delimiter: ','\n")
+	if twin {
+		b.WriteString("  - name: ja\n    type: file/json\n    file: /ammo/ja.json\n  - name: jb\n    type: file/json\n    file: /ammo/jb.json\n")
+	}
 	if funcs {
 		b.WriteString("  - name: global\n    type: variables\n    variables:\n      host: glob.example\n      max: 500\n      fixed: 'randInt(1000, 2000)'\n      pick: 'randString(6, qrs)'\n")
 	}
@@ -124,7 +129,13 @@ func c15YAML(scs []c15Scenario, rows int, plainPost bool, funcs bool, listTempl 
 			b.WriteString("      X-Glob-Host: '{{.source.global.host}}'\n      X-Glob-Fixed: '{{.source.global.fixed}}'\n      X-Glob-Pick: '{{.source.global.pick}}'\n")
 			fmt.Fprintf(&b, "      X-Pre-Int: '{{.request.%s_plain.preprocessor.rint}}'\n      X-Pre-Str: '{{.request.%s_plain.preprocessor.rstr}}'\n      X-Pre-Uuid: '{{.request.%s_plain.preprocessor.ruuid}}'\n", p, p, p)
 		}
+		if twin {
+			fmt.Fprintf(&b, "      X-Ja: '{{.request.%s_plain.preprocessor.ja}}'\n      X-Jb: '{{.request.%s_plain.preprocessor.jb}}'\n", p, p)
+		}
 		fmt.Fprintf(&b, "    preprocessor:\n      mapping:\n        first: source.users[0].name\n        last: source.users[last].name\n        lastn: source.users[%d].name\n        rnd: source.users[rand].name\n", rows-1)
+		if twin {
+			b.WriteString("        ja: source.ja.items[next].v\n        jb: source.jb.items[next].v\n")
+		}
 		if funcs {
 			b.WriteString("        rint: randInt(10, 20)\n        rstr: randString(4, xy)\n        ruuid: uuid()\n")
 		}
@@ -135,7 +146,11 @@ func c15YAML(scs []c15Scenario, rows int, plainPost bool, funcs bool, listTempl 
 	}
 	b.WriteString("scenarios:\n")
 	for _, sc := range scs {
-		fmt.Fprintf(&b, "  - name: %s\n    weight: %d\n    min_waiting_time: %d\n    requests:\n", sc.Name, sc.Weight, sc.MWT.Milliseconds())
+		if sc.WeightUnset {
+			fmt.Fprintf(&b, "  - name: %s\n    min_waiting_time: %d\n    requests:\n", sc.Name, sc.MWT.Milliseconds())
+		} else {
+			fmt.Fprintf(&b, "  - name: %s\n    weight: %d\n    min_waiting_time: %d\n    requests:\n", sc.Name, sc.Weight, sc.MWT.Milliseconds())
+		}
 		for _, l := range sc.Lines {
 			fmt.Fprintf(&b, "      - %s\n", l)
 		}
@@ -144,9 +159,12 @@ func c15YAML(scs []c15Scenario, rows int, plainPost bool, funcs bool, listTempl 
 }
 
 // c15HCL renders the same description in HCL.
-func c15HCL(scs []c15Scenario, rows int, plainPost bool, funcs bool, listTempl string) string {
+func c15HCL(scs []c15Scenario, rows int, plainPost bool, funcs bool, listTempl string, twin bool) string {
 	var b strings.Builder
 	b.WriteString("variable_source \"users\" \"file/csv\" {\n  file              = \"/ammo/users.csv\"\n  fields            = [\"id\", \"name\"]\n  ignore_first_line = true\n  delimiter         = \",\"\n}\n")
+	if twin {
+		b.WriteString("variable_source \"ja\" \"file/json\" {\n  file = \"/ammo/ja.json\"\n}\nvariable_source \"jb\" \"file/json\" {\n  file = \"/ammo/jb.json\"\n}\n")
+	}
 	if funcs {
 		b.WriteString("variable_source \"global\" \"variables\" {\n  variables = {\n    host  = \"glob.example\"\n    max   = 500\n    fixed = \"randInt(1000, 2000)\"\n    pick  = \"randString(6, qrs)\"\n  }\n}\n")
 	}
@@ -168,10 +186,16 @@ func c15HCL(scs []c15Scenario, rows int, plainPost bool, funcs bool, listTempl s
 			b.WriteString("    X-Glob-Host  = \"{{.source.global.host}}\"\n    X-Glob-Fixed = \"{{.source.global.fixed}}\"\n    X-Glob-Pick  = \"{{.source.global.pick}}\"\n")
 			fmt.Fprintf(&b, "    X-Pre-Int    = \"{{.request.%s_plain.preprocessor.rint}}\"\n    X-Pre-Str    = \"{{.request.%s_plain.preprocessor.rstr}}\"\n    X-Pre-Uuid   = \"{{.request.%s_plain.preprocessor.ruuid}}\"\n", p, p, p)
 		}
+		if twin {
+			fmt.Fprintf(&b, "    X-Ja         = \"{{.request.%s_plain.preprocessor.ja}}\"\n    X-Jb         = \"{{.request.%s_plain.preprocessor.jb}}\"\n", p, p)
+		}
 		b.WriteString("  }\n")
 		extra := ""
+		if twin {
+			extra += "      ja    = \"source.ja.items[next].v\"\n      jb    = \"source.jb.items[next].v\"\n"
+		}
 		if funcs {
-			extra = "      rint  = \"randInt(10, 20)\"\n      rstr  = \"randString(4, xy)\"\n      ruuid = \"uuid()\"\n"
+			extra += "      rint  = \"randInt(10, 20)\"\n      rstr  = \"randString(4, xy)\"\n      ruuid = \"uuid()\"\n"
 		}
 		fmt.Fprintf(&b, "  preprocessor {\n    mapping = {\n      first = \"source.users[0].name\"\n      last  = \"source.users[last].name\"\n      lastn = \"source.users[%d].name\"\n      rnd   = \"source.users[rand].name\"\n%s    }\n  }\n", rows-1, extra)
 		if plainPost {
@@ -181,7 +205,11 @@ func c15HCL(scs []c15Scenario, rows int, plainPost bool, funcs bool, listTempl s
 		fmt.Fprintf(&b, "request \"%s_pick\" {\n  method = \"GET\"\n  uri    = \"/%s/pick?t={{.request.%s_auth.postprocessor.token}}&i={{index .request.%s_list.postprocessor.items 0}}\"\n  tag    = \"k%d\"\n  headers = {}\n}\n", p, p, p, p, i)
 	}
 	for _, sc := range scs {
-		fmt.Fprintf(&b, "scenario \"%s\" {\n  weight           = %d\n  min_waiting_time = %d\n  requests         = [\n", sc.Name, sc.Weight, sc.MWT.Milliseconds())
+		if sc.WeightUnset {
+			fmt.Fprintf(&b, "scenario \"%s\" {\n  min_waiting_time = %d\n  requests         = [\n", sc.Name, sc.MWT.Milliseconds())
+		} else {
+			fmt.Fprintf(&b, "scenario \"%s\" {\n  weight           = %d\n  min_waiting_time = %d\n  requests         = [\n", sc.Name, sc.Weight, sc.MWT.Milliseconds())
+		}
 		for _, l := range sc.Lines {
 			fmt.Fprintf(&b, "    \"%s\",\n", l)
 		}
@@ -202,6 +230,19 @@ func runC15(r *R) {
 	var scs []c15Scenario
 	for i := 0; i < nsc; i++ {
 		scs = append(scs, c15GenScenario(w, i))
+	}
+	// one description in four with several scenarios leaves the weight of one of them out, the others get even weights
+	// (an unset weight counts as 1, whatever the others have in common)
+	if nsc >= 2 && w.Draw(4) == 0 {
+		u := w.Draw(nsc)
+		for i := range scs {
+			if i == u {
+				scs[i].Weight, scs[i].WeightUnset = 1, true
+			} else {
+				scs[i].Weight = 2 * (1 + w.Draw(3))
+			}
+		}
+		r.Note("a-scenario-without-weight")
 	}
 	rows := 1 + w.Draw(5)
 	inst := 1 + w.Draw(4)
@@ -246,11 +287,16 @@ func runC15(r *R) {
 	if listTempl != "" {
 		r.Note("templater:" + listTempl)
 	}
-	yaml, csv := c15YAML(scs, rows, plainPost, funcs, listTempl)
+	// one run in three: two json sources that both keep their rows under `items`, each walked with [next] by the plain step
+	twin := w.Draw(3) == 0
+	if twin {
+		r.Note("two-sources-with-equally-named-arrays")
+	}
+	yaml, csv := c15YAML(scs, rows, plainPost, funcs, listTempl, twin)
 	descFile := "/ammo/scenario.yaml"
 	if w.Draw(4) == 0 {
 		// the same description written in HCL
-		yaml = c15HCL(scs, rows, plainPost, funcs, listTempl)
+		yaml = c15HCL(scs, rows, plainPost, funcs, listTempl, twin)
 		descFile = "/ammo/scenario.hcl"
 		r.Note("description:hcl")
 	}
@@ -391,7 +437,9 @@ func runC15(r *R) {
 		DebugLog:  debugLog,
 		CancelAt:  cancelAt,
 		Instances: inst, Tokens: invocations + 3,
-		Files: map[string][]byte{descFile: []byte(yaml), "/ammo/users.csv": []byte(csv)}, Horizon: 2 * time.Hour,
+		Files: map[string][]byte{descFile: []byte(yaml), "/ammo/users.csv": []byte(csv),
+			"/ammo/ja.json": []byte(`{"items": [{"v": "a0"}, {"v": "a1"}, {"v": "a2"}, {"v": "a3"}]}`),
+			"/ammo/jb.json": []byte(`{"items": [{"v": "b0"}, {"v": "b1"}, {"v": "b2"}, {"v": "b3"}]}`)}, Horizon: 2 * time.Hour,
 	}, func(nw *simnet.Net) { nw.Latency = lat }, func(nw *simnet.Net) { tgt = startHTTPTarget(nw, target, false, script) })
 	for k := range faulted {
 		r.Fault("target:"+faulted[k], true)
@@ -461,6 +509,7 @@ func runC15(r *R) {
 			failedSamples++
 		}
 	}
+	twinVals := map[int][][2]string{} // scenario -> (X-Ja, X-Jb) of its plain requests
 	globFixed := map[string]string{} // header -> the value of the `variables` source seen first: it is computed once
 	seenUUID := map[string]bool{}
 	counts := make([]int, nsc)
@@ -566,6 +615,9 @@ func runC15(r *R) {
 						r.Fail("variable-flow/source-index", "%s arrived with X-First=%q X-Last=%q X-LastN=%q X-Rand=%q; the data source has %d rows: want %s, %s, %s and one of its names", rq.URI, hv("X-First"), hv("X-Last"), hv("X-Lastn"), rnd, rows, first, last, last)
 						return
 					}
+					if twin {
+						twinVals[in.sc] = append(twinVals[in.sc], [2]string{hv("X-Ja"), hv("X-Jb")})
+					}
 					if funcs {
 						if bad := c15CheckFuncs(hv, globFixed, seenUUID); bad != "" {
 							r.Fail("functions/"+strings.SplitN(bad, ":", 2)[0], "%s: %s (documented: uuid = a random uuid v4; randInt = 0-9 without arguments, 0..n with one, between the two with two; randString(n, letters) = n characters out of letters; values of a `variables` source are computed once)", rq.URI, bad)
@@ -583,6 +635,27 @@ func runC15(r *R) {
 		}
 	}
 	_ = globFixed
+	// every source walks its own rows: over n evaluations each of the 4 rows of `ja` (and of `jb`) is handed out n/4 times,
+	// the first n%4 rows once more - whichever instances made the evaluations and in whatever order
+	for si, vals := range twinVals {
+		for col, pfx := range []string{"a", "b"} {
+			cnt := map[string]int{}
+			for _, v := range vals {
+				cnt[v[col]]++
+			}
+			n := len(vals)
+			for row := 0; row < 4; row++ {
+				want := n / 4
+				if row < n%4 {
+					want++
+				}
+				if id := fmt.Sprintf("%s%d", pfx, row); cnt[id] != want {
+					r.Fail("next-rows/two-sources", "scenario %s evaluated source.j%s.items[next] %d times: row %d (%s) was handed out %d times, want %d (values of X-Ja / X-Jb in arrival order: %v)", scs[si].Name, pfx, n, row, id, cnt[id], want, vals)
+					return
+				}
+			}
+		}
+	}
 	// order bodies: the item must be an element of the latest list response of the same invocation, and the
 	// [next] positions used across all orders of a scenario are consecutive (mod 3)
 	posCount := map[int][]int{}
